@@ -365,6 +365,17 @@ func (e *Engine) bytesOf(st *State, v Value) (arr, off, ln string) {
 	hn := elemHeapName(sl.Elem())
 	srt := e.arrSort(e.arrSort(e.sortOf(sl.Elem())))
 	h := e.heapGet(st, hn, srt)
+	// read-only package tables of this element type: their backing array is the table in every heap
+	for vr, tn := range e.tables {
+		if tsl, ok := types.Unalias(vr.Type()).Underlying().(*types.Slice); ok && elemHeapName(tsl.Elem()) == hn {
+			key := "tbl:" + h + ":" + tn
+			if !e.declared[key] {
+				e.declared[key] = true
+				g := "G_" + mangle(vr.Pkg().Name()+"_"+vr.Name())
+				e.assume("true", eq(sx("select", h, sx("l_ref", g)), tn))
+			}
+		}
+	}
 	return sx("select", h, sx("l_ref", v.T)), sx("l_off", v.T), sx("l_len", v.T)
 }
 
@@ -768,6 +779,16 @@ func (e *Engine) writerWrite(c *ast.CallExpr, w Value, data Value, st *State) []
 	hf := e.heapGet(st, "W_failed", fs)
 	e.obligeNamed(st, fmt.Sprintf("pre:write-after-failure#%d", e.callSite("write")), "pre", not(sx("select", hf, key)), c.Pos(), "no write after a failed write", e.c.Opts["writerprop"])
 	arr, off, ln := e.bytesOf(st, data)
+	if _, isSlice := types.Unalias(data.Typ).Underlying().(*types.Slice); isSlice {
+		// ground instances of "a short range is the concatenation of its bytes" (consequences of the bseq unit/split laws)
+		for n := 2; n <= 4; n++ {
+			t := sx("unit", sx("select", arr, e.add(off, fmt.Sprint(n-1))))
+			for k := n - 2; k >= 0; k-- {
+				t = sx("cat", sx("unit", sx("select", arr, e.add(off, fmt.Sprint(k)))), t)
+			}
+			e.assume(st.pc, implies(eq(ln, fmt.Sprint(n)), eq(sx("bseq", arr, off, e.add(off, ln)), t)))
+		}
+	}
 	errv := e.havocValue("werr", types.Universe.Lookup("error").Type())
 	n := e.havocValue("wn", types.Typ[types.Int])
 	failed := not(eq(sx("i_tid", errv.T), "0"))
@@ -821,10 +842,12 @@ func (e *Engine) declareWriterTheory() {
 	e.sortDecls = append(e.sortDecls, "(declare-sort BSeq 0)",
 		"(declare-fun cat (BSeq BSeq) BSeq)", "(declare-fun eps () BSeq)",
 		"(declare-fun bseq ((Array Int Int) Int Int) BSeq)",
-		"(declare-fun fhint (Int) Bool)",
+		"(declare-fun fhint (Int) Bool)", "(declare-fun fsplit (Int Int Int) Bool)",
 		"(assert (forall ((a BSeq)) (! (= (cat a eps) a) :pattern ((cat a eps)))))",
 		"(assert (forall ((a BSeq)) (! (= (cat eps a) a) :pattern ((cat eps a)))))",
-		"(assert (forall ((a BSeq) (b BSeq) (c BSeq)) (! (= (cat (cat a b) c) (cat a (cat b c))) :pattern ((cat (cat a b) c)))))",
+		"(assert (forall ((a BSeq) (b BSeq) (c BSeq)) (! (= (cat (cat a b) c) (cat a (cat b c))) :weight 6 :pattern ((cat (cat a b) c)))))",
 		"(assert (forall ((a (Array Int Int)) (i Int)) (! (= (bseq a i i) eps) :pattern ((bseq a i i)))))",
+		"(declare-fun unit (Int) BSeq)", "(declare-fun fknown (BSeq) Bool)",
+		"(assert (forall ((a (Array Int Int)) (i Int) (j Int)) (! (=> (= j (+ i 1)) (= (bseq a i j) (unit (select a i)))) :pattern ((bseq a i j)))))",
 		"(assert (forall ((a (Array Int Int)) (i Int) (j Int) (k Int)) (! (=> (and (<= i j) (<= j k)) (= (cat (bseq a i j) (bseq a j k)) (bseq a i k))) :pattern ((cat (bseq a i j) (bseq a j k))))))")
 }
